@@ -269,52 +269,52 @@ pub fn fb<S: Src, const KIND: u8, const B: usize>(s: &mut S, maxpad: u8) {
     let _ = be32(&a, 0);
 }
 
-pub fn q_sr<S: Src>(s: &mut S) { sr::<S, 1, 64>(s, 12) }
-pub fn q_rr<S: Src>(s: &mut S) { rr::<S, 2, 68>(s, 12) }
-pub fn q_bye<S: Src>(s: &mut S) { bye::<S, 2, 12, 40>(s, 12) }
-pub fn q_bye_0<S: Src>(s: &mut S) { bye::<S, 0, 12, 32>(s, 12) }
-pub fn q_app<S: Src>(s: &mut S) { app::<S, 12, 36>(s, 12) }
-pub fn q_sdes_1x1<S: Src>(s: &mut S) { sdes::<S, 1, 1, 3, 32>(s, [1], 8) }
-pub fn q_sdes_2x1<S: Src>(s: &mut S) { sdes::<S, 2, 1, 2, 40>(s, [1, 1], 8) }
-pub fn q_sdes_0<S: Src>(s: &mut S) { sdes::<S, 0, 1, 1, 16>(s, [], 12) }
-pub fn q_nack<S: Src>(s: &mut S) { fb::<S, 0, 32>(s, 12) }
-pub fn q_pli<S: Src>(s: &mut S) { fb::<S, 1, 24>(s, 12) }
-pub fn q_sli<S: Src>(s: &mut S) { fb::<S, 2, 32>(s, 12) }
-pub fn q_rpsi<S: Src>(s: &mut S) { fb::<S, 3, 32>(s, 12) }
-pub fn q_fir<S: Src>(s: &mut S) { fb::<S, 4, 32>(s, 12) }
-pub fn t_sr_anypad<S: Src>(s: &mut S) { sr::<S, 2, 332>(s, 252) }
-pub fn t_rr_anypad<S: Src>(s: &mut S) { rr::<S, 1, 288>(s, 252) }
-pub fn t_bye_anypad<S: Src>(s: &mut S) { bye::<S, 1, 8, 280>(s, 252) }
-pub fn t_bye_long<S: Src>(s: &mut S) { bye::<S, 1, 128, 160>(s, 12) }
-pub fn t_app_anypad<S: Src>(s: &mut S) { app::<S, 8, 276>(s, 252) }
-pub fn t_sdes_1x2<S: Src>(s: &mut S) { sdes::<S, 1, 2, 3, 44>(s, [2], 12) }
-pub fn t_sdes_anypad<S: Src>(s: &mut S) { sdes::<S, 1, 1, 2, 272>(s, [1], 252) }
-pub fn t_nack_anypad<S: Src>(s: &mut S) { fb::<S, 0, 276>(s, 252) }
-pub fn t_fir_anypad<S: Src>(s: &mut S) { fb::<S, 4, 276>(s, 252) }
+pub fn w_q_sr<S: Src>(s: &mut S) { sr::<S, 1, 64>(s, 12) }
+pub fn w_q_rr<S: Src>(s: &mut S) { rr::<S, 2, 68>(s, 12) }
+pub fn w_q_bye<S: Src>(s: &mut S) { bye::<S, 2, 12, 40>(s, 12) }
+pub fn w_q_bye_0<S: Src>(s: &mut S) { bye::<S, 0, 12, 32>(s, 12) }
+pub fn w_q_app<S: Src>(s: &mut S) { app::<S, 12, 36>(s, 12) }
+pub fn w_q_sdes_1x1<S: Src>(s: &mut S) { sdes::<S, 1, 1, 3, 32>(s, [1], 8) }
+pub fn w_q_sdes_2x1<S: Src>(s: &mut S) { sdes::<S, 2, 1, 2, 40>(s, [1, 1], 8) }
+pub fn w_q_sdes_0<S: Src>(s: &mut S) { sdes::<S, 0, 1, 1, 16>(s, [], 12) }
+pub fn w_q_nack<S: Src>(s: &mut S) { fb::<S, 0, 32>(s, 12) }
+pub fn w_q_pli<S: Src>(s: &mut S) { fb::<S, 1, 24>(s, 12) }
+pub fn w_q_sli<S: Src>(s: &mut S) { fb::<S, 2, 32>(s, 12) }
+pub fn w_q_rpsi<S: Src>(s: &mut S) { fb::<S, 3, 32>(s, 12) }
+pub fn w_q_fir<S: Src>(s: &mut S) { fb::<S, 4, 32>(s, 12) }
+pub fn w_t_sr_anypad<S: Src>(s: &mut S) { sr::<S, 2, 332>(s, 252) }
+pub fn w_t_rr_anypad<S: Src>(s: &mut S) { rr::<S, 1, 288>(s, 252) }
+pub fn w_t_bye_anypad<S: Src>(s: &mut S) { bye::<S, 1, 8, 280>(s, 252) }
+pub fn w_t_bye_long<S: Src>(s: &mut S) { bye::<S, 1, 128, 160>(s, 12) }
+pub fn w_t_app_anypad<S: Src>(s: &mut S) { app::<S, 8, 276>(s, 252) }
+pub fn w_t_sdes_1x2<S: Src>(s: &mut S) { sdes::<S, 1, 2, 3, 44>(s, [2], 12) }
+pub fn w_t_sdes_anypad<S: Src>(s: &mut S) { sdes::<S, 1, 1, 2, 272>(s, [1], 252) }
+pub fn w_t_nack_anypad<S: Src>(s: &mut S) { fb::<S, 0, 276>(s, 252) }
+pub fn w_t_fir_anypad<S: Src>(s: &mut S) { fb::<S, 4, 276>(s, 252) }
 
 common::register! {
-    q_sr = q_sr => 2,
-    q_rr = q_rr => 2,
-    q_bye = q_bye => 2,
-    q_bye_0 = q_bye_0 => 2,
-    q_app = q_app => 2,
-    q_sdes_0 = q_sdes_0 => 2,
-    q_sdes_1x1 = q_sdes_1x1 => 2,
-    q_sdes_2x1 = q_sdes_2x1 => 2,
-    q_nack = q_nack => 2,
-    q_pli = q_pli => 2,
-    q_sli = q_sli => 2,
-    q_rpsi = q_rpsi => 2,
-    q_fir = q_fir => 2,
-    t_sr_anypad = t_sr_anypad => 2,
-    t_rr_anypad = t_rr_anypad => 2,
-    t_bye_anypad = t_bye_anypad => 2,
-    t_bye_long = t_bye_long => 2,
-    t_app_anypad = t_app_anypad => 2,
-    t_sdes_1x2 = t_sdes_1x2 => 2,
-    t_sdes_anypad = t_sdes_anypad => 2,
-    t_nack_anypad = t_nack_anypad => 2,
-    t_fir_anypad = t_fir_anypad => 2,
+    q_sr = w_q_sr => 2,
+    q_rr = w_q_rr => 2,
+    q_bye = w_q_bye => 2,
+    q_bye_0 = w_q_bye_0 => 2,
+    q_app = w_q_app => 2,
+    q_sdes_0 = w_q_sdes_0 => 2,
+    q_sdes_1x1 = w_q_sdes_1x1 => 2,
+    q_sdes_2x1 = w_q_sdes_2x1 => 2,
+    q_nack = w_q_nack => 2,
+    q_pli = w_q_pli => 2,
+    q_sli = w_q_sli => 2,
+    q_rpsi = w_q_rpsi => 2,
+    q_fir = w_q_fir => 2,
+    t_sr_anypad = w_t_sr_anypad => 2,
+    t_rr_anypad = w_t_rr_anypad => 2,
+    t_bye_anypad = w_t_bye_anypad => 2,
+    t_bye_long = w_t_bye_long => 2,
+    t_app_anypad = w_t_app_anypad => 2,
+    t_sdes_1x2 = w_t_sdes_1x2 => 2,
+    t_sdes_anypad = w_t_sdes_anypad => 2,
+    t_nack_anypad = w_t_nack_anypad => 2,
+    t_fir_anypad = w_t_fir_anypad => 2,
 }
 
 #[cfg(not(kani))]
